@@ -5,22 +5,6 @@
 From PegV Require Import Base.Tac Spec.Syntax Spec.Peg Model.SetImpl Model.Optimize Proofs.SetProofs Proofs.Forest.
 Open Scope Z_scope.
 
-(** characters and ranges in the grammar are code points in order *)
-Fixpoint ranges_ok (e : expr) : bool :=
-  match e with
-  | EChar c => 0 <=? c
-  | ERange lo hi => (0 <=? lo) && (lo <=? hi)
-  | ESeq es | EAlt es => forallb ranges_ok es
-  | EAnd e1 | ENot e1 | EQuery e1 | EStar e1 | EPlus e1 | EPush e1 => ranges_ok e1
-  | ESwitch _ _ => false          (* the analysis runs on trees without switch nodes *)
-  | _ => true
-  end.
-
-Fixpoint inv_b (lo : Z) (l : iset) : bool :=
-  match l with
-  | [] => true
-  | (b, e) :: l' => (lo <=? b) && (b <=? e) && inv_b (e + 2) l'
-  end.
 Lemma inv_b_ok l : forall lo, inv_b lo l = true -> inv_from lo l.
 Proof.
   induction l as [|[b e] l IH]; intros lo H; cbn [inv_b inv_from] in *; [exact I|].
@@ -28,23 +12,12 @@ Proof.
   split; [lia|]. split; [lia|]. apply IH. exact H3.
 Qed.
 
-(** subset test through the package's own operations *)
-Definition subset_b (s t : iset) : bool := equal (union t s) t.
-
 Section FS.
 Variable g : grammar.
 Variable T : list fsres.
 
-Definition rule_t_ok (r : nat) (rb : rbody) : bool :=
-  match rb with
-  | RBody b => ranges_ok b && implb (fst (tget T r)) (fst (fs T b)) && subset_b (snd (fs T b)) (snd (tget T r))
-  | RAct _ => negb (fst (tget T r))
-  | RNil => true
-  end.
-
-Definition t_ok_b : bool :=
-  forallb (fun s => inv_b 0 (snd s)) T &&
-  forallb (fun p => rule_t_ok (fst p) (snd p)) (combine (seq 0 (length g)) g).
+Notation rule_t_ok := (Optimize.rule_t_ok T).
+Notation t_ok_b := (Optimize.t_ok_b g T).
 
 Hypothesis Hok : t_ok_b = true.
 
